@@ -686,6 +686,14 @@ impl DtlsInner {
                                     is_client,
                                 )
                                 .await?;
+                            } else if msg.msg_type == HandshakeType::Finished
+                                && !is_client
+                                && authenticated
+                                && let Some(records) = &ctx.last_flight_records
+                            {
+                                // The client repeats its Finished because our final flight
+                                // (ChangeCipherSpec + Finished) was lost: send it again.
+                                let _ = self.conn.send_dtls_record_batch(records).await;
                             }
                             continue;
                         }
